@@ -7,6 +7,6 @@
 // three (quick) / four (thorough) field fillings - known and unknown ids, two streams, extreme timestamps, JSON payloads with and
 // without artifact ids, a 4.4 KB text of 1/2/3/4-byte characters sized to cut inside a character - with ascending / equal /
 // descending seqs and three capacity settings; (2) after all start-like frames, each frame five times in a row; (3) 600 / 4000
-// fixed pseudo-random sequences of up to 40 frames.  Checked: no panic, frames <= max_frames, output text and previews within
+// fixed pseudo-random sequences of up to 40 frames.  Every frame is also rendered by the real summary.rs (event_type / event_summary: total, same text twice).  Checked: no panic, frames <= max_frames, output text and previews within
 // their bounds, two runs give the same state, get_by_seq returns a frame with that seq or nothing.  Never counted as proved.
 fn main() {}
